@@ -42,6 +42,10 @@ def one_case(ctx, kind, inp, inp2, user_seed, check_model=True):
             for k in [k for k in presv.GENS if k[0] == inp["reuse_gen"]]:
                 presv.GENS.pop(k)
             ctx.count("reused_generator_object")
+            evs = [r[1] for r in inp["table"]]
+            if evs:
+                ty = {"py": "int", "cs": "int", "cpp": "int32_t"}[kind]
+                inp2 = dict(inp2, iface_extra=[evs[user_seed % len(evs)], "extraMember", ty])
     inp2_fresh = {k: v for k, v in inp2.items() if k not in ("reuse_iface", "reuse_gen")}
     with scratch() as d:
         out = os.path.join(d, "out")
